@@ -270,6 +270,80 @@ def enumerate_prefixes(bnf, terminals, max_len, cap):
 
 # ------------------------------------------------------------------ extraction check
 
+def atn_decoder_check(label, text):
+    """the Lean decoder's reading of a serialised ATN against ANTLR's own ATNDeserializer"""
+    from antlr4.atn.ATNDeserializer import ATNDeserializer
+    from antlr4.atn.Transition import Transition
+    nums = [ord(c) for c in text]
+    o = core.model_batch([core.cmd("ATNDEC", " ".join(str(n) for n in nums))])[0]
+    if o == "undecodable":
+        return ["%s: the model does not decode the serialised ATN" % label], 0, 0
+    f = dict(kv.split("=", 1) for kv in o.split(";"))
+    atn = ATNDeserializer().deserialize(text)
+    msgs = []
+    mst = [tuple(map(int, x.split(":"))) for x in f["states"].split()]
+    if len(mst) != len(atn.states):
+        return ["%s: %d states decoded, ANTLR has %d" % (label, len(mst), len(atn.states))], 0, 0
+    for k, (ty, rule) in enumerate(mst):
+        s = atn.states[k]
+        if s is None:
+            if ty != 0: msgs.append("%s: state %d is invalid for ANTLR, type %d in the model" % (label, k, ty))
+            continue
+        none = lambda v: v in (-1, 65533, 65534, 65535)
+        if s.stateType != ty or not (s.ruleIndex == rule or (none(s.ruleIndex) and none(rule))):
+            msgs.append("%s: state %d: model (type %d, rule %d), ANTLR (type %d, rule %d)" % (label, k, ty, rule, s.stateType, s.ruleIndex))
+    sets = [[tuple(map(int, r.split("-"))) for r in x.split(",")] if x else [] for x in f["sets"].split(" ")] if f["sets"] else []
+    edges = [tuple(map(int, x.split(":"))) for x in f["edges"].split()]
+    used = set()
+    for (src, trg, ty, a1, a2, a3) in edges:
+        found = False
+        for j, t in enumerate(atn.states[src].transitions):
+            if (src, j) in used or t.serializationType != ty:
+                continue
+            if ty == Transition.RULE:
+                ok = (t.target.stateNumber == a1 and t.ruleIndex == a2 and t.precedence == a3 and t.followState.stateNumber == trg)
+            else:
+                ok = t.target.stateNumber == trg
+                if ty == Transition.RANGE:
+                    ok = ok and (t.start == (-1 if a3 else a1)) and t.stop == a2
+                elif ty == Transition.ATOM:
+                    ok = ok and t.label_ == (-1 if a3 else a1)
+                elif ty in (Transition.SET, Transition.NOT_SET):
+                    iv = [(r.start, r.stop - 1) for r in t.label.intervals if r.stop - 1 >= 0 and not (r.start == -1 and r.stop == 0)]
+                    iv = [(max(a, 0), b) for a, b in iv]
+                    ok = ok and a1 < len(sets) and sorted(iv) == sorted(sets[a1])
+                elif ty == Transition.PREDICATE:
+                    ok = ok and t.ruleIndex == a1 and t.predIndex == a2
+                elif ty == Transition.ACTION:
+                    ok = ok and t.ruleIndex == a1 and (t.actionIndex == a2 or (a2 >= 65533 and t.actionIndex in (-1, 65533, 65534, 65535)))
+                elif ty == Transition.PRECEDENCE:
+                    ok = ok and t.precedence == a1
+            if ok:
+                used.add((src, j)); found = True
+                break
+        if not found:
+            msgs.append("%s: edge %s of the model has no counterpart among ANTLR's transitions of state %d" % (label, (src, trg, ty, a1, a2, a3), src))
+    # transitions ANTLR has beyond the serialised edges: returns from rule stop states, mode start edges, and for
+    # left-recursive rules the precedence bypass - all epsilon
+    extra = 0
+    for s in atn.states:
+        if s is None: continue
+        for j, t in enumerate(s.transitions):
+            if (s.stateNumber, j) not in used:
+                extra += 1
+                if t.serializationType != Transition.EPSILON:
+                    msgs.append("%s: ANTLR has a non-epsilon transition %d -> %d the serialisation does not list" % (label, s.stateNumber, t.target.stateNumber))
+    if [d.stateNumber for d in atn.decisionToState] != list(map(int, f["decisions"].split())):
+        msgs.append("%s: decision states differ" % label)
+    if [r.stateNumber for r in atn.ruleToStartState] != list(map(int, f["rulestart"].split())):
+        msgs.append("%s: rule start states differ" % label)
+    if atn.grammarType == 0 and list(atn.ruleToTokenType) != [(-1 if x == 0xFFFF else x) for x in map(int, f["ruletok"].split())]:
+        msgs.append("%s: rule token types differ: %s vs %s" % (label, list(atn.ruleToTokenType)[:5], f["ruletok"][:30]))
+    if int(f["rest"]) != (0 if atn.grammarType == 1 else None) and atn.grammarType == 1:
+        msgs.append("%s: %s numbers left over after decoding" % (label, f["rest"]))
+    return msgs, len(edges), extra
+
+
 def extraction_check(ctx):
     """what the translator reads out of the .py files is what the module gives the ANTLR runtime"""
     import translate
@@ -287,6 +361,11 @@ def extraction_check(ctx):
         atn = ATNDeserializer().deserialize(fn())
         if len(atn.ruleToStartState) != len(cls.ruleNames):
             msgs.append("%s: ATN has %d rules, ruleNames has %d" % (label, len(atn.ruleToStartState), len(cls.ruleNames)))
+        # the Lean decoder (Blackbird/ATN.lean) against ANTLR's own deserializer, on the same numbers
+        dm, nedges, nextra = atn_decoder_check(label, fn())
+        msgs += ["decoder, " + m for m in dm[:5]]
+        ctx.extra["%s_atn_edges_compared_with_ANTLR_deserializer" % label] = nedges
+        ctx.extra["%s_atn_epsilon_edges_ANTLR_adds" % label] = nextra
         ctx.extra["%s_atn_states" % label] = len(atn.states)
         ctx.extra["%s_atn_ints" % label] = len(runtime)
         ctx.traces += 1
@@ -363,6 +442,9 @@ def run(ctx):
         "four generated lexer/parser sources, the four .interp and two .tokens files; validated on every run "
         "(re-rendered grammar equals the source text modulo comments and spacing; the ATN read statically equals the "
         "one the imported module hands the ANTLR runtime and deserialises there)",
+        "Blackbird/ATN.lean's decoder of the serialisation format is compared on every run with ANTLR's own ATNDeserializer "
+        "(states, every serialised edge with its label, sets, decisions, rule start states, token types); the configuration "
+        "semantics of Blackbird/ATNSem.lean stays a reading of LexerATNSimulator",
         "the ANTLR 4.9.2 tool's translation of the grammar to the ATN is NOT proved: the differential lexer/parser "
         "checks in 'rule' stand for it"]
     g = g4.read(os.path.join(core.REPO, "src", "blackbird.g4"))
